@@ -232,6 +232,9 @@ class CMapDB:
     @classmethod
     def _load_data(cls, name: str) -> Any:
         name = name.replace("\0", "")
+        if os.path.basename(name) != name or name in ("", ".", ".."):
+            # the name comes from the document: never leave the cmap directories
+            raise CMapDB.CMapNotFound(name)
         filename = "%s.pickle.gz" % name
         log.debug("loading: %r", name)
         cmap_paths = (
